@@ -423,9 +423,17 @@ func (fx *FuncExec) evalComposite(st *State, e *ast.CompositeLit, addr bool) Ter
 				fvs = append(fvs, fv{name, fx.evalTo(st, el, si.FieldT[name])})
 			}
 		}
-		r := fx.allocStruct(st, si)
+		given := map[string]bool{}
+		for _, f := range fvs {
+			given[f.name] = true
+		}
+		r := fx.allocStruct(st, si, given)
 		for _, f := range fvs {
 			comp := si.Comp[f.name]
+			if fx.reg.imm[comp] {
+				st.assume(eq("(imm_"+comp+" "+r+")", f.val.S))
+				continue
+			}
 			if sub := fx.structValInfo(si.FieldT[f.name]); sub != nil {
 				fx.copyInto(st, sel(fx.H(st, comp), r), f.val.S, sub, true)
 				continue
@@ -683,6 +691,10 @@ func (fx *FuncExec) storeField(st *State, si *StructInfo, ref, field string, val
 	if comp, ok := si.Comp[field]; ok {
 		ft := si.FieldT[field]
 		val = fx.convert(st, val, ft)
+		if fx.reg.imm[comp] {
+			fx.oblige(st, "immutable-write", field, eq("(imm_"+comp+" "+ref+")", val.S), "write to immutable field "+field+" keeps its value", pos)
+			return
+		}
 		if sub := fx.structValInfo(ft); sub != nil {
 			fx.copyInto(st, sel(fx.H(st, comp), ref), val.S, sub, false)
 			return
